@@ -90,6 +90,97 @@ def run_corpus(pid, stats, first_hits):
     return cases
 
 
+def raw_integrity(raw):
+    """referential integrity of the RAW tables, strings compared exactly as a case-sensitive database joins them (the canonical
+    dump maps every spelling of a uuid to one token and cannot see a row that refers to another spelling)"""
+    v = []
+    rp_ids = {r['id'] for r in raw['resource_providers']}
+    cons = {c['uuid'] for c in raw['consumers']}
+    for a in raw['allocations']:
+        if a['consumer_id'] not in cons:
+            v.append('allocation row of consumer %r: no consumer record with exactly that uuid' % a['consumer_id'])
+        if a['resource_provider_id'] not in rp_ids:
+            v.append('allocation row refers to provider id %r, which does not exist' % a['resource_provider_id'])
+    for r in raw['resource_providers']:
+        if r['root_provider_id'] not in rp_ids or (r['parent_provider_id'] is not None and r['parent_provider_id'] not in rp_ids):
+            v.append('provider %r: root / parent id refers to no provider' % r['uuid'])
+    for t, col in (('inventories', 'resource_provider_id'), ('resource_provider_traits', 'resource_provider_id'),
+                   ('resource_provider_aggregates', 'resource_provider_id')):
+        for row in raw[t]:
+            if row[col] not in rp_ids:
+                v.append('%s row refers to provider id %r, which does not exist' % (t, row[col]))
+    agg_ids = {a['id'] for a in raw['placement_aggregates']}
+    for row in raw['resource_provider_aggregates']:
+        if row['aggregate_id'] not in agg_ids:
+            v.append('aggregate association refers to aggregate id %r, which does not exist' % row['aggregate_id'])
+    pids = {p['id'] for p in raw['projects']}
+    uids = {u['id'] for u in raw['users']}
+    tids = {t['id'] for t in raw.get('consumer_types', [])}
+    for c in raw['consumers']:
+        if c['project_id'] not in pids or c['user_id'] not in uids:
+            v.append('consumer %r refers to a project / user row that does not exist' % c['uuid'])
+        if c.get('consumer_type_id') is not None and c['consumer_type_id'] not in tids:
+            v.append('consumer %r refers to a consumer type that does not exist' % c['uuid'])
+    return v
+
+
+def spelling_stream(stats):
+    """identifiers spelled in upper case (legal for every uuid in a body) through every route that takes uuids in a body or a
+    path; after each request the raw tables must be referentially intact (on a case-sensitive database two spellings are two
+    identifiers: that is the service's stated behaviour, not checked here)"""
+    from harness import impl, inject
+    from harness.checks_conc import inv, cons
+    setup = [('rp_create', 39, 1, 1, None), ('inv_set', 39, 1, 0, [inv(0, 8), inv(2, 100)]),
+             ('rp_create', 39, 2, 2, 1), ('inv_set', 39, 2, 0, [inv(0, 8)]), ('aggs_set', 39, 1, 1, [1]),
+             ('alloc_put', 39, cons(2, None, [(2, [(0, 1)])]))]
+    app = inject.fresh(setup)
+    H = {'x-roles': 'admin,service'}
+    U = ops.uuid_of
+    up = lambda x: x.upper()       # noqa: E731
+    rp1, rp2 = U(1), U(2)
+    c3, c4, c5 = U(3, ops.K_CONS), U(4, ops.K_CONS), U(5, ops.K_CONS)
+    a2 = U(2, ops.K_AGG)
+    body = lambda rp, amt, gen: {'allocations': {rp: {'resources': {'VCPU': amt}}}, 'project_id': 'proj1', 'user_id': 'user1',   # noqa: E731
+                                 'consumer_generation': gen, 'consumer_type': 'TYPE1'}
+    hits = []
+    reqs = [
+        ('POST', '/allocations', {up(c3): body(rp1, 1, None)}),
+        ('POST', '/allocations', {up(c3): body(rp1, 2, 1)}),
+        ('POST', '/allocations', {c3: body(rp1, 1, None)}),
+        ('PUT', '/allocations/%s' % up(c4), body(rp2, 1, None)),
+        ('PUT', '/allocations/%s' % up(c4), body(rp2, 2, 1)),
+        ('POST', '/allocations', {up(c5): body(rp1, 1, None), up(c4): body(rp1, 1, 2)}),
+        ('POST', '/reshaper', {'inventories': {rp1: {'resource_provider_generation': None, 'inventories': {'VCPU': {'total': 16}, 'DISK_GB': {'total': 100}}}},
+                               'allocations': {up(c5): dict(body(rp1, 2, 1))}}),
+        ('PUT', '/resource_providers/%s/aggregates' % rp1, {'resource_provider_generation': None, 'aggregates': [up(a2), a2]}),
+        ('POST', '/resource_providers', {'name': 'spelled', 'uuid': up(U(7)), 'parent_provider_uuid': rp1}),
+        ('POST', '/resource_providers', {'name': 'spelled2', 'uuid': U(7)}),
+        ('PUT', '/resource_providers/%s' % up(U(7)), {'name': 'renamed', 'parent_provider_uuid': rp1}),
+        ('DELETE', '/allocations/%s' % up(c3), None),
+        ('DELETE', '/allocations/%s' % c3, None),
+        ('DELETE', '/resource_providers/%s' % up(U(7)), None),
+    ]
+    for method, path, b in reqs:
+        if b is not None and 'inventories' in b and method == 'POST':
+            g = app.request('GET', '/resource_providers/%s' % rp1, version='1.39', headers=H).json['generation']
+            for k in b['inventories']:
+                b['inventories'][k]['resource_provider_generation'] = g
+        if b is not None and b.get('resource_provider_generation', 0) is None:
+            b['resource_provider_generation'] = app.request('GET', '/resource_providers/%s' % rp1, version='1.39', headers=H).json['generation']
+        r = app.request(method, path, b, version='1.39', headers=H)
+        stats['evaluations'] += 1
+        stats['status'][r.status] += 1
+        stats['ops']['spelling'] += 1
+        if r.status >= 500:
+            hits.append(({'method': method, 'path': path, 'body': b}, 'answered %d' % r.status))
+        for msg in raw_integrity(app.raw_dump())[:2]:
+            hits.append(({'method': method, 'path': path, 'body': b, 'status': r.status}, msg))
+        if hits:
+            break
+    app.close()
+    return hits
+
+
 def run_stream(pid, n_hist, n_ops, base_seed, profile, stats, first_hits, stop_after=3):
     """Run histories on the implementation, evaluating the property's oracle on every step."""
     oracle = oracles.ORACLES[pid]
@@ -248,8 +339,16 @@ def run(pid, tier, out):
         seen_cx.add(key)
         v['payload']['broken'] = ps.get('broken') or ('correspondence' if tie_broken else None)
         out.violation(v['payload'], v['text'])
+    if pid == 'C08':
+        try:
+            for payload, msg in spelling_stream(stats)[:2]:
+                out.violation({'kind': 'spelling', 'request': payload, 'broken': ps.get('broken')},
+                              '%s %s (identifiers in upper case): %s' % (payload['method'], payload['path'], msg))
+                hits.append((-99, [], [msg]))
+        except Exception as exc:      # noqa
+            corr_error = (corr_error or '') + ' spelling stream: %s' % str(exc)[-300:]
     reported = 0
-    for (i, case, msgs) in hits[:3]:
+    for (i, case, msgs) in [h for h in hits if h[0] != -99][:3]:
         op_list = [c[0] for c in case]
         small, smsgs = shrink(pid, op_list)
         out.violation({'kind': 'history', 'ops': [op_json(o) for o in small], 'seed': seed, 'history_index': i,
